@@ -162,7 +162,7 @@ theorem NFr0.trans {a b c : NetState} (h1 : NFr0 a b) (h2 : NFr0 b c) : NFr0 a c
    h2.kind.trans h1.kind, h2.rid.trans h1.rid, h2.active.trans h1.active,
    fun k => (h2.rids k).trans (h1.rids k)⟩
 
-theorem Quiet.nfr0 {s s' : NetState} (h : Quiet s) (hf : NFr0 s s') : Quiet s' := by
+theorem Quiet7.nfr0 {s s' : NetState} (h : Quiet7 s) (hf : NFr0 s s') : Quiet7 s' := by
   rcases h with h | ⟨g, d⟩
   · exact Or.inl (hf.closed.trans h)
   · refine Or.inr ⟨⟨by rw [hf.cur, hf.active]; exact g.onStack, by rw [hf.cur, hf.len]; exact g.exists_⟩, ?_⟩
